@@ -30,7 +30,7 @@ PROP = dict(
                  "state); tilesAt_of_C03 reduces it to C03's hypotheses; history_ledger_linked / _total / _fresh / _C03 discharge "
                  "it along every history outside C01's word-losing class Known (the former F02/F03 class: operations that leave a buffered syllable without a word; such a syllable is now shown and committed as its 1-4 character Bopomofo spelling, so the one-character-per-symbol ledger is stated for states where every buffered syllable has a word) from C01's reachable-state invariant at strength True, for every "
                  "environment satisfying C01's EnvOK (all its clauses are used); everything else holds for every environment",
-                 "history_ledger_C03 (engine = C03's model): C03's theorems cover buffers of at most 128 symbols (ScoreBound; by C05Bound.conversions_are_short the editor asks for nothing longer than 41 symbols on histories with exact lookup and the documented limit, by C05Bound.fuzzy_unbounded_refuted it can under prefix lookup - Link.EngineIsC03.beyond stays an assumption); "
+                 "history_ledger_C03 (engine = C03's model): C03's theorems cover buffers of at most 128 symbols (ScoreBound; by C05Bound.conversions_are_short the editor asks for nothing longer than 41 symbols with the documented limit - under either lookup strategy since fix b92f99b (FX3/FX4; before it prefix lookup let the buffer grow without bound) - Link.EngineIsC03.beyond stays an assumption); "
                  "for longer buffers the engine contract stays a hypothesis (EngineIsC03.beyond)",
                  "'accepted characters' of a step = net change of the symbol count made by its editing part (state machine / "
                  "API call before the commit path), +1 for a key committed directly from an empty pre-edit; which keys insert "
